@@ -169,7 +169,9 @@ Print Assumptions C03_failed_rekey_is_rolled_back_example.
 
 (* init() through a handle whose state point cannot be loaded changes nothing (no empty directory) *)
 Theorem C03_init_unloadable_no_effect : forall frepr susp force w h w1 e,
-  sp_access frepr w h = (w1, inr e) -> init frepr susp force w h = (w, inr e).
+  sp_access frepr w h = (w1, inr e) ->
+  exists w', init frepr susp force w h = (w', inr e) /\
+    w_fs w' = w_fs w /\ w_tr w' = w_tr w /\ w_hs w' = w_hs w /\ w_cs w' = w_cs w /\ w_ss w' = w_ss w.
 Proof. exact init_unloadable_no_effect. Qed.
 Print Assumptions C03_init_unloadable_no_effect.
 
